@@ -143,9 +143,15 @@ class SubjectAnalysis:
     def _subj_op(self, op):
         if op.place is None:
             return False
-        from .expr import strip_casts
+        width = {"u8": 8, "i8": 8, "u16": 16, "i16": 16, "u32": 32, "i32": 32, "u64": 64, "i64": 64, "usize": 64, "isize": 64, "u128": 128, "i128": 128}
         try:
-            return bool(self.is_subject(strip_casts(self.eb.operand(op))))
+            e = self.eb.operand(op)
+            while e[0] == "cast":
+                # a truncating cast is not transparent: a test of `x as u16` says nothing about the range of a wider x
+                if len(e) > 4 and e[4] in width and e[1] in width and width[e[4]] > width[e[1]]:
+                    return False
+                e = e[2]
+            return bool(self.is_subject(e))
         except Exception:
             return False
 
